@@ -132,6 +132,59 @@ def frame_rule(ctx: Ctx, rs: RuleSet, rule: str, q: str, tag_expr: str):
              f'guarded_by_own_tag_set={guard_ok}', ctx.loc(f, e))
 
 
+def tags_in_metadata(ctx: Ctx, rs: RuleSet):
+  """Traversal metadata carries every tag set (also used by C07: copies are
+  unflatten(flatten), so a tag dropped here is dropped by every copy)."""
+  p = ctx.p
+  rule = 'WMC.tags-in-metadata'
+  rs.declare(rule, 'traversal metadata is built only by flatten with the '
+             'source tags and narrowed only by dropping history', 3)
+  MD = f'{CFG}.BuildableTraverserMetadata'
+  ctors = []
+  for q, sites in ctx.cg.call_sites.items():
+    for call, callees, exact in sites:
+      scope = p.funcs.get(q) or p.modules.get(q[:-len('.<module>')])
+      if scope is not None and p.resolve(call.func, scope) == MD:
+        ctors.append((q, call, scope))
+  for q, call, scope in ctors:
+    ok = q == ctx.func(f'{CFG}._buildable_flatten').qualname
+    rs.check(ok, rule, f'{q}:BuildableTraverserMetadata(...)',
+             'constructed by the flatten function' if ok else
+             f'{q} constructs traversal metadata itself: tags may be dropped',
+             ctx.loc(scope, call))
+  ff = ctx.func(f'{CFG}._buildable_flatten')
+  at = None
+  for c in ctx.calls(ff):
+    if p.resolve(c.func, ff) == MD:
+      at = kwarg(c, 'argument_tags') or (ctx.bound_args(c, ff) or {}).get(
+          'argument_tags')
+  comp = roles.deref(ff, at) if at is not None else None
+  ok = (isinstance(comp, ast.DictComp) and
+        '__argument_tags__' in unparse(comp.generators[0].iter) and
+        unparse(comp.key) == unparse(comp.generators[0].target.elts[0]))
+  # the only filter allowed is dropping empty sets
+  if ok:
+    ifs = comp.generators[0].ifs
+    ok = all(unparse(c) == unparse(comp.generators[0].target.elts[1])
+             for c in ifs)
+  rs.check(ok, rule, f'{ff.qualname}:argument_tags',
+           'argument_tags covers every non-empty tag set of the source',
+           ctx.loc(ff, ff.node))
+  repl = []
+  for q, f in p.funcs.items():
+    for c in ctx.calls(f):
+      if isinstance(c.func, ast.Attribute) and c.func.attr == '_replace':
+        ks = [k.arg for k in c.keywords]
+        if any(k in ('argument_tags', 'argument_names', 'fn_or_cls') for k in ks):
+          repl.append((q, c, f))
+  rs.check(not repl, rule, 'metadata._replace',
+           'no _replace call rewrites tags / names / callable of traversal '
+           'metadata' if not repl else
+           f'{repl[0][0]} rewrites metadata: `{unparse(repl[0][1])[:70]}`',
+           ctx.loc(repl[0][2], repl[0][1]) if repl else '')
+
+
+
 def run(ctx: Ctx, rs: RuleSet, tier: str):
   p = ctx.p
   kd_rule(ctx, rs, 'KD.tag-keys',
@@ -296,53 +349,7 @@ def run(ctx: Ctx, rs: RuleSet, tier: str):
            'names go through validate_param_name, indices through '
            '_validate_param_index', ctx.loc(va, va.node))
 
-  # ---- metadata carries tags
-  rule = 'WMC.tags-in-metadata'
-  rs.declare(rule, 'traversal metadata is built only by flatten with the '
-             'source tags and narrowed only by dropping history', 3)
-  MD = f'{CFG}.BuildableTraverserMetadata'
-  ctors = []
-  for q, sites in ctx.cg.call_sites.items():
-    for call, callees, exact in sites:
-      scope = p.funcs.get(q) or p.modules.get(q[:-len('.<module>')])
-      if scope is not None and p.resolve(call.func, scope) == MD:
-        ctors.append((q, call, scope))
-  for q, call, scope in ctors:
-    ok = q == ctx.func(f'{CFG}._buildable_flatten').qualname
-    rs.check(ok, rule, f'{q}:BuildableTraverserMetadata(...)',
-             'constructed by the flatten function' if ok else
-             f'{q} constructs traversal metadata itself: tags may be dropped',
-             ctx.loc(scope, call))
-  ff = ctx.func(f'{CFG}._buildable_flatten')
-  at = None
-  for c in ctx.calls(ff):
-    if p.resolve(c.func, ff) == MD:
-      at = kwarg(c, 'argument_tags') or (ctx.bound_args(c, ff) or {}).get(
-          'argument_tags')
-  comp = roles.deref(ff, at) if at is not None else None
-  ok = (isinstance(comp, ast.DictComp) and
-        '__argument_tags__' in unparse(comp.generators[0].iter) and
-        unparse(comp.key) == unparse(comp.generators[0].target.elts[0]))
-  # the only filter allowed is dropping empty sets
-  if ok:
-    ifs = comp.generators[0].ifs
-    ok = all(unparse(c) == unparse(comp.generators[0].target.elts[1])
-             for c in ifs)
-  rs.check(ok, rule, f'{ff.qualname}:argument_tags',
-           'argument_tags covers every non-empty tag set of the source',
-           ctx.loc(ff, ff.node))
-  repl = []
-  for q, f in p.funcs.items():
-    for c in ctx.calls(f):
-      if isinstance(c.func, ast.Attribute) and c.func.attr == '_replace':
-        ks = [k.arg for k in c.keywords]
-        if any(k in ('argument_tags', 'argument_names', 'fn_or_cls') for k in ks):
-          repl.append((q, c, f))
-  rs.check(not repl, rule, 'metadata._replace',
-           'no _replace call rewrites tags / names / callable of traversal '
-           'metadata' if not repl else
-           f'{repl[0][0]} rewrites metadata: `{unparse(repl[0][1])[:70]}`',
-           ctx.loc(repl[0][2], repl[0][1]) if repl else '')
+  tags_in_metadata(ctx, rs)
 
   # ---- TaggedValue expansion on assignment
   # ---- tags survive diff application: the tag comparison is never skipped
